@@ -209,3 +209,36 @@ CHECKS['C13'] = dict(
     min_counters={'quick': {'enc_triples': 30000, 'enc_expert_shorter_than_buffer': 500, 'dec_triples': 50000, 'dec_samples_above_full_scale': 100000, 'proj_samples_saturating': 1000, 'msdec_triples': 4000},
                   'thorough': {'enc_triples': 800000}},
 )
+
+CHECKS['C12'] = dict(
+    level='exploration',
+    rule="enc: twin OpusEncoders (one in zero-filled, one in poisoned caller-provided memory with the stack repainted and unrelated objects "
+         "created/destroyed before every call) under one random ctl history and signal, 5..60 frames, float and int16 input, buffers 3..1500 "
+         "bytes; memcpy(get_size) clone at a random frame into fresh memory (original poisoned and freed in half of the cases); finally "
+         "OPUS_RESET_STATE on the clone vs a newly initialised encoder that replays the user's ctl calls, 6..30 frames. dec: the same for "
+         "decoders over 1..3 real streams with loss bursts up to 10 packets, FEC and mutated packets, float and int16 output, gain and phase-"
+         "inversion settings, then reset vs fresh on another stream. ms: surround families 0/1/255 and projection family 3 encoders and "
+         "multistream decoders: zero vs poisoned memory, clone, reset vs fresh. Runs are repeated with the RTCD level capped (hook H1) and "
+         "under MemorySanitizer. Distinct = (TOC, stage [twin/clone/reset], original freed, rate, application, signal / call kind, API, burst).",
+    assumptions=COMMON_ASSUME + ["'same settings' for reset-equivalence = the ctl calls the user made, replayed on the new object"],
+    evals_counter=None,
+    runs=[
+        dict(h='h_c12.c', mode='enc', flavour='prod', n={'quick': 1600, 'thorough': 40000}),
+        dict(h='h_c12.c', mode='enc', flavour='asan', n={'quick': 480, 'thorough': 12000}),
+        dict(h='h_c12.c', mode='enc', flavour='prod-fixed', n={'quick': 480, 'thorough': 12000}),
+        dict(h='h_c12.c', mode='enc', flavour='prod-np', n={'quick': 320, 'thorough': 8000}, args=['cap=0']),
+        dict(h='h_c12.c', mode='enc', flavour='prod-np', n={'quick': 320, 'thorough': 8000}, args=['cap=2']),
+        dict(h='h_c12.c', mode='dec', flavour='prod', n={'quick': 1600, 'thorough': 40000}),
+        dict(h='h_c12.c', mode='dec', flavour='asan', n={'quick': 480, 'thorough': 12000}),
+        dict(h='h_c12.c', mode='dec', flavour='prod-fixed', n={'quick': 480, 'thorough': 12000}),
+        dict(h='h_c12.c', mode='dec', flavour='prod-np', n={'quick': 320, 'thorough': 8000}, args=['cap=1']),
+        dict(h='h_c12.c', mode='ms', flavour='prod', n={'quick': 640, 'thorough': 16000}),
+        dict(h='h_c12.c', mode='ms', flavour='asan', n={'quick': 160, 'thorough': 4000}),
+        dict(h='h_c12.c', mode='enc', flavour='msan', n={'quick': 160, 'thorough': 5000}),
+        dict(h='h_c12.c', mode='dec', flavour='msan', n={'quick': 160, 'thorough': 5000}),
+        dict(h='h_c12.c', mode='ms', flavour='msan', n={'quick': 64, 'thorough': 2000}),
+    ],
+    min_nontrivial={'quick': 1000, 'thorough': 2000},
+    min_counters={'quick': {'enc_pairs': 50000, 'enc_reset_equal': 2500, 'dec_pairs': 50000, 'dec_reset_equal': 2500, 'ms_enc_pairs': 5000},
+                  'thorough': {'enc_pairs': 1000000}},
+)
